@@ -1,7 +1,7 @@
 #!/bin/bash
 # usage: tools/try_seed.sh <patch.diff> <ID> [<ID>...]   — applies a seeded change to /repo, runs the quick checks, reverts.
 set -u
-patch=$1; shift
+patch=$(realpath $1); shift
 cd /verif
 if [ -n "$(git -C /repo status --porcelain --untracked-files=no)" ]; then echo "/repo not clean"; exit 3; fi
 git -C /repo apply "$patch" || { echo "patch does not apply"; exit 3; }
